@@ -42,6 +42,9 @@ CHECKS = {
     "C11": dict(
         text="Coq theorems over the same state machine with a per-request adversary (acknowledge / reject with any code / lose the request / lose the acknowledgement): failed requests leave the reported state where it was; after ANY such history a write that is acknowledged brings device and client to the requested state (C11_converges, by the sync-flag invariant); worked example of the repaired defect F16. Differential: adversarial histories on the real CommHandler under a scaled clock with watchdogs.",
         design="3/C11", technique="Coq proof (invariant over adversarial histories) + differential correspondence on the real handler"),
+    "C13": dict(
+        text="Coq theorem C13_safe over a line-granularity transition system of thread_start / thread_stop / _thread_loop (controller pc, stop flag, handle, worker incarnations incl. a leaked one, monitor): for every start/stop sequence and every interleaving of any length the target never runs after stop returned and before the next start, at most one incarnation is alive, and after stop returns none is; obtained from an in-kernel closed-set computation (39 abstract states) lifted by the proved lemma closed_safe; start/stop no-ops, restartability, loop shape (init, target*, final) and progress as separate theorems. Tie: thread.py skeletons pinned (the model is its line structure) + exploration of the real ThreadCommon under a 10 us switch interval judged by the same monitor; heavy scenarios on drift.",
+        design="3/C13", technique="Coq proof (finite closed set computed in the kernel, lifted to all traces by a proved lemma) + pinned source skeleton + monitored exploration of real threads"),
 }
 PENDING = {}
 
